@@ -176,8 +176,47 @@ let cmd_md () =
     let l = List.map (fun w -> z_of_int (int_of_string w)) (words line) in
     print_endline (String.concat " " (List.map (fun z -> string_of_int (int_of_z z)) (load_md l))))
 
+(* resolve: candidate codes per line (0 nil, 1 accept, 2+2k shift k, 3+2k reduce k) -> "winner | conflict codes" or PANIC;
+   also checks the zip round trip of the candidate row itself *)
+let cmd_resolve () =
+  let dec a = if a = 0 then None else if a = 1 then Some Accept
+    else if a land 1 = 0 then Some (Shift (nat_of_int ((a - 2) / 2))) else Some (Reduce (nat_of_int ((a - 3) / 2))) in
+  let enc = function None -> 0 | Some Accept -> 1 | Some (Shift s) -> 2 + 2 * int_of_nat s | Some (Reduce p) -> 3 + 2 * int_of_nat p in
+  iter_lines (fun line ->
+    let cs = List.map (fun w -> dec (int_of_string w)) (words line) in
+    let zip_ok = (decode_row (nat_of_int (List.length cs)) (encode_row cs) = cs) in
+    match row_action cs with
+    | None -> print_endline "PANIC"
+    | Some (w, cf) ->
+      print_endline (Printf.sprintf "%d |%s%s" (enc w)
+        (String.concat "" (List.map (fun a -> " " ^ string_of_int (enc (Some a))) cf))
+        (if zip_ok then "" else " ZIPBAD")))
+
+(* tokmap: "lhs sym sym ; lhs sym ... | lexid lexid" with every name hex-encoded UTF-8 -> terminals, hex names *)
+let utf8_runes (s : string) =
+  let bytes = List.init (String.length s) (fun i -> z_of_int (Char.code s.[i])) in
+  let rec go bs = match bs with
+    | [] -> []
+    | _ -> let (r, sz) = decode_rune bs in
+      let rec drop n l = if n = 0 then l else match l with [] -> [] | _ :: t -> drop (n - 1) t in
+      r :: go (drop (max 1 (int_of_nat sz)) bs) in
+  go bytes
+let hex_to_string h = String.init (String.length h / 2) (fun i -> Char.chr (int_of_string ("0x" ^ String.sub h (2 * i) 2)))
+let cmd_tokmap () =
+  iter_lines (fun line ->
+    let (ps, lx) = match String.split_on_char '|' line with [a; b] -> (a, b) | [a] -> (a, "") | _ -> failwith "tokmap" in
+    let name h = utf8_runes (hex_to_string h) in
+    let prods = List.filter_map (fun p -> match words p with [] -> None | l :: b -> Some (name l, List.map name b))
+                  (String.split_on_char ';' ps) in
+    let lex = List.map name (words lx) in
+    let tm = terminals_z prods lex in
+    print_endline (String.concat " " (List.map (fun n ->
+      String.concat "" (List.map (fun z -> hex_encode (encode_rune z)) n)) tm)))
+
 let () =
   match Array.to_list Sys.argv with
+  | _ :: "tokmap" :: _ -> cmd_tokmap ()
+  | _ :: "resolve" :: _ -> cmd_resolve ()
   | _ :: "litconv" :: _ -> cmd_litconv ()
   | _ :: "md" :: _ -> cmd_md ()
   | _ :: "parse" :: file :: fuel :: _ -> cmd_parse file (int_of_string fuel)
